@@ -898,14 +898,18 @@ func ruleHeaderMap(c *Check, a *Analysis, rule string) {
 			continue
 		}
 		seen := map[string]int{}
-		for _, s := range storesIn(fn) {
+		eachInstrCtx(fn, func(in, at ssa.Instruction, res func(ssa.Value) ssa.Value) {
+			s, isStore := in.(*ssa.Store)
+			if !isStore {
+				return
+			}
 			fr, _, ok := fieldOfAddr(s.Addr)
 			if !ok || fr.Struct != "Context" {
-				continue
+				return
 			}
 			want, known := m[fr.Field]
 			got := ""
-			if cc, isC := p.canon(s.Val).(*ssa.Call); isC {
+			if cc, isC := p.canon(res(s.Val)).(*ssa.Call); isC {
 				if cc.Common().IsInvoke() {
 					got = cc.Common().Method.Name()
 				} else if cal := cc.Common().StaticCallee(); cal != nil {
@@ -915,7 +919,7 @@ func ruleHeaderMap(c *Check, a *Analysis, rule string) {
 			ok = known && got == want
 			seen[fr.Field]++
 			c.Ob(rule, sc.key(fn, "Context."+fr.Field+"="+want), p.InstrPos(s), ok, ifs(!ok, "Context."+fr.Field+" is filled from "+got+" (expected "+want+")"))
-		}
+		})
 		for f := range m {
 			if seen[f] < 2 {
 				c.Ob(rule, sc.key(fn, "both arms fill Context."+f), fn.Pos(), false, fmt.Sprintf("Context.%s is filled in %d arm(s); the encoder arm and the default pb arm must both fill it", f, seen[f]))
@@ -935,27 +939,22 @@ func ruleHeaderMap(c *Check, a *Analysis, rule string) {
 			continue
 		}
 		seen := map[string]int{}
-		eachInstr(fn, func(in ssa.Instruction) {
-			cc, ok := in.(*ssa.Call)
+		eachInstrCtx(fn, func(in, at ssa.Instruction, res func(ssa.Value) ssa.Value) {
+			hw, ok := headerWriteOf(in)
 			if !ok {
 				return
 			}
-			name := ""
-			if cc.Common().IsInvoke() {
-				name = cc.Common().Method.Name()
-			} else if cal := cc.Common().StaticCallee(); cal != nil {
-				name = cal.Name()
-			}
+			name := hw.Setter
 			w, known := m[name]
 			if !known {
 				return
 			}
 			seen[name]++
-			arg := cc.Common().Args[len(cc.Common().Args)-1]
+			arg := res(hw.Val)
 			good := true
 			det := ""
 			for _, o := range p.origins(arg) {
-				o = p.canon(o)
+				o = p.canon(res(o))
 				switch w.kind {
 				case "ctx":
 					if !isLoadOf(o, "Context", w.field) {
@@ -1052,4 +1051,35 @@ func ruleResliceGuard(c *Check, a *Analysis, rule string, floor int) {
 		})
 	}
 
+}
+
+// headerWrite is one assignment of a header field of a request/response object: a setter
+// call (x.SetSeq(v)) or, for the built-in header structs, the equivalent direct field store
+// (&pbResponse{Seq: v, …}).
+type headerWrite struct {
+	Setter string // "SetSeq", …
+	Val    ssa.Value
+	Instr  ssa.Instruction
+}
+
+var headerStructs = map[string]bool{"pbRequest": true, "pbResponse": true, "request": true, "response": true, "jsonRequest": true, "jsonResponse": true}
+
+func headerWriteOf(in ssa.Instruction) (headerWrite, bool) {
+	switch x := in.(type) {
+	case *ssa.Call:
+		name := ""
+		if x.Common().IsInvoke() {
+			name = x.Common().Method.Name()
+		} else if cal := x.Common().StaticCallee(); cal != nil && cal.Signature.Recv() != nil {
+			name = cal.Name()
+		}
+		if strings.HasPrefix(name, "Set") && len(x.Common().Args) > 0 {
+			return headerWrite{name, x.Common().Args[len(x.Common().Args)-1], in}, true
+		}
+	case *ssa.Store:
+		if fr, _, ok := fieldOfAddr(x.Addr); ok && headerStructs[fr.Struct] && x.Parent().Signature.Recv() == nil || ok && headerStructs[fr.Struct] && namedOf(x.Parent().Signature.Recv().Type()) != fr.Struct {
+			return headerWrite{"Set" + fr.Field, x.Val, in}, true
+		}
+	}
+	return headerWrite{}, false
 }
